@@ -20,6 +20,8 @@ func fb(s int, c string, ps ...int) Op { return Op{Kind: "cmd", S: s, Cmd: c, Ps
 func drain(s int) Op                   { return Op{Kind: "drain", S: s} }
 func dl(s int) Op                      { return Op{Kind: "deliver", S: s} }
 func byuid(o Op) Op                    { o.ByUID = true; return o }         // the UID form of the command
+func all(o Op) Op                      { o.All = true; return o }           // the message set 1:*
+func label(o Op) Op                    { o.Label = true; return o }         // a MOVE answered by a connector with label semantics
 func ro(o Op) Op                       { o.RO = true; return o }            // the same command in a session that used EXAMINE
 func qs(s int) Op                      { return Op{Kind: "quiesce", S: s} } // deliver all, NOOP, probe, compare with a fresh session
 
@@ -69,6 +71,17 @@ func Corpus() []Scenario {
 			sel(0, 0), sel(1, 0), app(0, 0, 1), app(0, 0), drain(1), cmd(1, "noop"), cmd(1, "probe"),
 			cmd(0, "expunge"), app(0, 0), drain(1), cmd(1, "search"), cmd(1, "unselect"), cmd(1, "noop"), sel(1, 1), cmd(1, "noop"), cmd(1, "probe"),
 			sel(1, 0), qs(1), qs(0)}},
+		{Name: "message-sets-are-sets", K: 2, Ops: []Op{ // 3,1 and 2,3,2: resolved in ascending order; COPY/MOVE keep the source order
+			sel(0, 0), sel(1, 1), app(0, 0), app(0, 0), app(0, 0), store(0, []int{3, 1}, "add", false, 3), cp(0, []int{3, 1}, 1), mv(0, []int{2, 3, 2}, 1),
+			cmd(0, "probe"), drain(1), cmd(1, "noop"), cmd(1, "probe"), byuid(store(1, []int{3, 2}, "add", false, 4)), cmd(1, "probe"), qs(1), qs(0)}},
+		{Name: "more-messages-than-one-statement-takes", K: 3, Ops: []Op{ // db.ChunkLimit+3 messages: STORE 1:* and COPY 1:* reach every one of them, in the database and in every session
+			sel(0, 0), sel(1, 0), sel(2, 1), {Kind: "conn", Cmd: "newbulk", Mb: 0, Count: 1003}, drain(0), drain(1), drain(2),
+			cmd(0, "noop"), cmd(1, "noop"), all(store(0, nil, "add", true, 1)), drain(1), drain(2), qs(1),
+			all(store(0, nil, "rem", true, 1)), all(store(0, nil, "add", true, 4)), all(cp(0, nil, 1)), drain(1), drain(2), qs(2), qs(1), qs(0)}},
+		{Name: "label-style-move-keeps-the-source", K: 3, Ops: []Op{ // the connector answers "do not remove": the message stays in the source, for the database and for every session
+			sel(0, 0), sel(1, 0), sel(2, 1), app(0, 0), app(0, 0, 3), drain(1), drain(2), cmd(1, "noop"), cmd(1, "probe"),
+			label(mv(0, []int{1}, 1)), cmd(0, "probe"), drain(1), drain(2), cmd(2, "noop"), cmd(2, "probe"), qs(1), qs(0), qs(2),
+			label(mv(0, []int{1, 2}, 1)), drain(1), drain(2), qs(2), qs(1), qs(0)}},
 		{Name: "pending-exists-then-readd", K: 2, Ops: []Op{ // appended, removed and put back before the observer heard of it at all
 			sel(0, 0), sel(1, 0), app(0, 0), mv(0, []int{1}, 1), sel(0, 1), mv(0, []int{1}, 0), sel(0, 0),
 			drain(1), cmd(1, "search"), cmd(1, "probe"), qs(1)}},
